@@ -162,7 +162,28 @@ Theorem safe_name_terminates p k name :
   prefix_ok p = true -> exists r, safe_name safe_fuel p (apply_case k) name = SOk r.
 Proof. intros Hp. apply (safe_name_terminates_ge p k Hp 63 name). lia. Qed.
 
-(* ---- the weaker guard "the prefix contains an ASCII letter" is not enough ---------- *)
+(* ---- since the fix for C07-F6 Filters.__init__ refuses the prefixes for which safe_name
+   would recurse for ever: every naming filter of an accepted configuration terminates ---- *)
+Lemma valid_prefix_ok p : valid_prefix p = true -> prefix_ok p = true.
+Proof. intros H. exact H. Qed.
+
+Theorem filters_terminate cv name :
+  filters_init cv = true ->
+  (exists r, class_name cv name = SOk r) /\ (exists r, field_name cv name = SOk r) /\
+  (exists r, constant_name cv name = SOk r) /\ (exists r, module_name cv name = SOk r).
+Proof.
+  unfold filters_init. intros H.
+  apply andb_true_iff in H as [H Hm]. apply andb_true_iff in H as [H Hp].
+  apply andb_true_iff in H as [H Hc]. apply andb_true_iff in H as [Hcl Hf].
+  unfold class_name, field_name, constant_name, module_name. repeat split.
+  - apply safe_name_terminates; exact Hcl.
+  - apply safe_name_terminates; exact Hf.
+  - apply safe_name_terminates. destruct constant_name_uses_field_prefix; assumption.
+  - apply safe_name_terminates; exact Hm.
+Qed.
+
+(* the raw function still recurses for ever when called with such a prefix (kept as a lemma about
+   the model; no Filters object can be built with it any more) *)
 Definition bad_prefix : str := lit "1a".
 
 Lemma bad_prefix_loops : forall fuel name,
@@ -177,14 +198,5 @@ Proof.
   - unfold slug_alpha. rewrite alnum_app. reflexivity.
 Qed.
 
-Theorem safe_name_prefix_with_letter_refuted :
-  exists p name, existsb is_ascii_alpha p = true /\
-    forall fuel, safe_name fuel p (apply_case Snake) name = SFuel.
-Proof.
-  exists bad_prefix, (lit "1"). split; [reflexivity|].
-  intros fuel. apply bad_prefix_loops; [discriminate|reflexivity|reflexivity].
-Qed.
-
-(* the empty prefix diverges on the empty name, "_" on every name without a letter first *)
-Theorem safe_name_empty_prefix_refuted : forall fuel, safe_name fuel [] (apply_case Snake) [] = SFuel.
-Proof. induction fuel as [|fuel IH]; [reflexivity|]. cbn [safe_name]. exact IH. Qed.
+Lemma bad_prefix_rejected cv : class_prefix cv = bad_prefix -> filters_init cv = false.
+Proof. intros H. unfold filters_init. rewrite H. reflexivity. Qed.
